@@ -30,6 +30,8 @@ func runC02(c *Ctx, r *Report) {
 	refusedOperationsLeaveNoTrace(c, r, "R-C02.7")
 	r.Doc("R-C02.8", "the loops that maintain heads and the predecessor index (Append, Join, FindHeads, NewLog) process every element")
 	loopsComplete(c, r, "R-C02.8", func(fn *Fn) bool { return rootNamed(fn, "Append", "Join", "FindHeads", "NewLog") }, "a predecessor link is not indexed or a candidate head is not examined: referenced entries stay heads, or heads are missed")
+	r.Doc("R-C02.9", "the predecessor index that decides which entries are referenced is keyed by predecessor links of the filed entry (not by its references, not by another list)")
+	indexKeys(c, r, "R-C02.9")
 
 	findHeadsShape(c, r, "R-C02.1")
 
